@@ -170,6 +170,74 @@ def geo_calls(obj, prefix=""):
     return calls
 
 
+# ---- queries that need arguments: resolved from the parameter NAMES (documented meaning), so that a newly added
+# measure with the usual parameters is driven without touching the machinery
+ARG_SKIP = {
+    # random / resampling (not functions of the object), static array helpers, constructors, callbacks, mutators
+    "resample_diagline_dist", "resample_vertline_dist", "rejection_sampling", "bootstrap_distance_matrix",
+    "twin_surrogates", "refined_AAFT_surrogates", "RandomlyRewireCrossLinks", "RandomlySetCrossLinks",
+    "RandomlySetCrossLinks_sparse", "embed_time_series", "embed_time_series_array", "normalize_time_series",
+    "normalize_time_series_array", "rescale", "zero_pad_data", "cos_window", "next_power_2", "legendre_coordinates",
+    "latlon2cartesian", "cartesian2latlon", "eval_fast_code", "test_mutual_information", "test_pearson_correlation",
+    "test_threshold_significance", "original_distribution", "recurrence_plot", "make_event_matrix",
+    "event_coincidence_analysis", "event_synchronization", "subnetwork", "calculate_similarity_measure",
+    "threshold_from_recurrence_rate", "threshold_from_recurrence_rate_fast", "node_attribute", "find_link_attribute",
+    "twins", "link_density_function",
+}
+
+
+def arg_calls(obj, already=()):
+    """(label, thunk) for every public method whose REQUIRED parameters all have a documented meaning the
+    harness can supply (bin counts, clique order, node groups, a link attribute that exists, a metric, node
+    numbers, a density, selected phases); methods in SKIP / ARG_SKIP and setters are left out."""
+    import inspect
+    n = getattr(obj, "N", None)
+    if n is None or not isinstance(n, (int, np.integer)) or n < 2:
+        n = 2
+    half = max(1, int(n) // 2)
+    g1, g2 = list(range(half)), list(range(half, int(n)))
+    attrs = []
+    try:
+        attrs = list(obj.graph.es.attributes())
+    except Exception:
+        pass
+    table = {"n_bins": [4], "order": [4], "node_list1": [g1], "node_list2": [g2], "node_list": [g1],
+             "sources": [g1], "targets": [g2], # (only the attribute the harness itself sets: others are created lazily by queries, so the SET of queries
+             # would depend on what was asked before)
+             "attribute_name": (["w"] if "w" in attrs else None),
+             "metric": ["manhattan", "euclidean"], "a": [0], "b": [int(n) - 1], "i": [1 % int(n)],
+             "node1": [0], "node2": [int(n) - 1], "node": [1 % int(n)], "link_density": [0.4],
+             "selected_months": [[0, 2]], "selected_phases": [[0, 2]]}
+    calls = []
+    for name in sorted(dir(obj)):
+        if name.startswith("_") or name in SKIP or name in ARG_SKIP or name.startswith("set_"):
+            continue
+        try:
+            f = getattr(obj, name)
+        except Exception:
+            continue
+        if not callable(f) or isinstance(f, type):
+            continue
+        try:
+            sig = inspect.signature(getattr(f, "__wrapped__", f))
+        except (TypeError, ValueError):
+            continue
+        req = [p.name for p in sig.parameters.values()
+               if p.default is inspect.Parameter.empty and p.name != "self"
+               and p.kind in (p.POSITIONAL_ONLY, p.POSITIONAL_OR_KEYWORD)]
+        if not req or any(table.get(r) is None for r in req):
+            continue
+        variants = max(len(table[r]) for r in req)
+        for k in range(variants):
+            vals = [table[r][min(k, len(table[r]) - 1)] for r in req]
+            label = "%s(%s)" % (name, ",".join("%s=%s" % (r, "G" if isinstance(v, list) else v)
+                                                for r, v in zip(req, vals)))
+            if label in already:
+                continue
+            calls.append((label, lambda f=f, vals=vals: f(*[list(v) if isinstance(v, list) else v for v in vals])))
+    return calls
+
+
 def classify(obj_n, label, val, o):
     """Put an encoded value into o['s'|'v'|'m'|'g'] by shape."""
     if hasattr(val, "toarray"):
